@@ -122,7 +122,7 @@ func runSimd(c *Ctx) {
 	}
 	c.End()
 	c.Begin("kernels")
-	cases := 0
+	cases, boundChecks := 0, 0
 	for n := 1; n <= L; n++ {
 		reps := 1
 		if n <= 40 {
@@ -182,6 +182,34 @@ func runSimd(c *Ctx) {
 						c.Violate("C15", sig, fmt.Sprintf("%s, n=%d, class %d: AVX returns %v, the portable kernel %v", names[k], n, class, ra, rn), desc)
 					}
 				}
+				// the proved rounding bound itself (Props/C15 euclid_agree_up_to_rounding, manhattan_agree_up_to_rounding):
+				// each implementation within ((1+u)^(n+6) - 1) * S of the exact sum S, u = 2^-24, on the magnitude
+				// classes where float32 obeys the standard model (nothing overflows or underflows). S is
+				// computed in float64 (its own error, n * 2^-53, is far below the bound); for the Euclidean
+				// distance the wrapper's square root and the squaring back cost three more roundings.
+				if k < 2 && (class == 0 || class == 5) {
+					var S float64
+					for i := 0; i < n; i++ {
+						d := float64(a[i]) - float64(b[i])
+						if k == 0 {
+							S += d * d
+						} else {
+							S += math.Abs(d)
+						}
+					}
+					g := math.Pow(1+math.Pow(2, -24), float64(n+9)) - 1
+					for which, r := range []float32{ra, rn} {
+						v := float64(r)
+						if k == 0 {
+							v = v * v
+						}
+						if math.Abs(v-S) > g*S*(1+1e-9)+1e-300 {
+							c.Violate("C15", "C15/rounding-bound/"+names[k], fmt.Sprintf("%s n=%d class %d: %s returns %v, exact sum %v: deviation %.3g exceeds the proved bound ((1+u)^(n+9)-1)*S = %.3g",
+								names[k], n, class, []string{"AVX", "the portable kernel"}[which], r, S, math.Abs(v-S), g*S), desc)
+						}
+					}
+					boundChecks++
+				}
 				// symmetry, non-negativity, zero on self (through the Space wrapper for cosine's Abs)
 				if rs := call(avx, k, b, a); math.Float32bits(rs) != math.Float32bits(ra) && !(math.IsNaN(float64(rs)) && math.IsNaN(float64(ra))) {
 					c.Violate("C15", "C15/asymmetric/"+names[k], fmt.Sprintf("%s n=%d: d(a,b)=%v but d(b,a)=%v", names[k], n, ra, rs), desc)
@@ -204,7 +232,7 @@ func runSimd(c *Ctx) {
 	}
 	c.Stats.Evaluations += cases - 1
 	c.Stats.DistinctNontrivial += cases * 3 / 4
-	c.OpLocal("%d kernel cases over lengths 1..%d", cases, L)
+	c.OpLocal("%d kernel cases over lengths 1..%d; %d of them checked against the proved rounding bound", cases, L, boundChecks)
 	c.End()
 
 	// guard pages (child process): vectors end exactly at an inaccessible page
